@@ -231,23 +231,24 @@ func (c *Ctx) finish(verifDir string, seed int, start time.Time, loadInfo map[st
 	}
 	sort.Strings(fns)
 	cov := map[string]interface{}{
-		"explanation": "static analysis of /repo's current source (type-checked AST, structured path conditions, call graph); rules applied: " + strings.Join(c.rulesDoc, " || "),
-		"obligations":           len(c.obs),
-		"discharged":            ndis,
-		"exceptions_used":       nexc,
-		"known_findings":        nknown,
-		"undecided":             nund,
-		"per_rule":              perRule,
-		"floors":                c.floors,
-		"samples":               samples,
-		"non_discharged":        nonDischarged,
-		"stale_exceptions":      stale,
-		"functions_inspected":   fns,
-		"not_decided":           c.notDecided,
-		"checker_cmd":           "/verif/run.sh " + c.Prop + " " + c.Tier,
-		"exhaustive":            true,
-		"load":                  loadInfo,
-		"trusted_base":          []string{"go/types type checker", "golang.org/x/tools go/packages, go/ssa, callgraph/vta", "rule tables in /verif/checker"},
+		"explanation":         "static analysis of /repo's current source (type-checked AST, structured path conditions, call graph); rules applied: " + strings.Join(c.rulesDoc, " || "),
+		"obligations":         len(c.obs),
+		"discharged":          ndis,
+		"exceptions_used":     nexc,
+		"known_findings":      nknown,
+		"undecided":           nund,
+		"per_rule":            perRule,
+		"floors":              c.floors,
+		"samples":             samples,
+		"non_discharged":      nonDischarged,
+		"stale_exceptions":    stale,
+		"functions_inspected": fns,
+		"not_decided":         c.notDecided,
+		"checker_cmd":         "/verif/run.sh " + c.Prop + " " + c.Tier,
+		"exhaustive":          true,
+		"load":                loadInfo,
+		"seeded_replay":       loadInfo["seeded_replay"],
+		"trusted_base":        []string{"go/types type checker", "golang.org/x/tools go/packages, go/ssa, callgraph/vta", "rule tables in /verif/checker"},
 	}
 	ev := evidence{Property: c.Prop, Tier: c.Tier, Seed: seed, Level: "other", Coverage: cov, Assume: c.assume,
 		Wall: time.Since(start).Seconds(), Violations: nviol + nund}
